@@ -10,7 +10,7 @@
 //                 1 = intrusive, gc::DHP (observable only)
 //                 2 = container, gc::HP  (observable only)
 //                 3 = container, gc::DHP (observable only)
-//   op  = "1 v s0 s1 ..."  enq v -> events  inv_enq v t k ; ret_enq t k           (t = thread, k = index of the
+//   op  = "1 v s0 s1 ..."  enq v -> events  inv_enq v t k ; ret_enq v t k         (t = thread, k = index of the
 //         "2 s0 s1 ..."    deq   -> events  inv_deq t k   ; ret_deq t k 1 v t' k'    operation in the thread: the item
 //                                                           ret_deq t k 0            enqueued is item{v,t,k})
 //         s0 s1 ... = start values of the cell-probing permutation: round r of the operation (r-th construction /
@@ -109,7 +109,7 @@ void run_one( vcase::Case const& c )
                 starts().op = &op; starts().next = 2;
                 vcase::emitf( "inv_enq %ld %ld %ld", v, (long) t, k );
                 a->enq( item{ v, (long) t, k } );
-                vcase::emitf( "ret_enq %ld %ld", (long) t, k );
+                vcase::emitf( "ret_enq %ld %ld %ld", v, (long) t, k );
             }
             else if ( op[0] == 2 ) {
                 starts().op = &op; starts().next = 1;
@@ -130,7 +130,18 @@ void run_one( vcase::Case const& c )
         }
     },
     [&]( int ) { cds::threading::Manager::attachThread(); },
-    [&]( int ) { cds::threading::Manager::detachThread(); },
+    [&]( int ) {
+        // a detaching thread scans its retired segments; that must not happen while other workers are still inside
+        // the scheduled region (the model has no reclamation inside a case, and a reused address would be a new object)
+        for (;;) {
+            {
+                std::unique_lock<std::mutex> lk( vs::S().m );
+                if ( vs::S().nfinished >= (int) c.threads.size()) break;
+            }
+            std::this_thread::yield();
+        }
+        cds::threading::Manager::detachThread();
+    },
     20000 );
     vcase::print_log( c );
     std::printf( "monitor qf %lu\n", (unsigned long) a->qf());
